@@ -31,6 +31,8 @@ Decided clause:
        multiset of calls with the same role-normalised arguments in every backend; the portable unit is the reference. The
        vectorised cores themselves differ by design and are not compared. (An IETF entry point that sets up the original
        nonce / counter layout in one backend only.)
+  R3.10 one cipher per stream function: all calls to a crypto_core_* permutation inside one function of the stream units name the same
+       core (a Salsa20/12 XOR whose partial-block arm calls the 20-round core).
   R3.6 batches are independent: in the multi-block loops of the SIMD backends no value that was produced
        by the rounds of one batch is carried into the next batch (a loop-carried value at the header of a
        batch loop may only be recomputed from itself, constants and other carried values: byte count,
@@ -158,6 +160,7 @@ def run(ctx, chk):
     batch_rule(prog, chk)
     counter_width_rule(ctx, prog, chk)
     sibling_wrapper_rule(prog, chk)
+    single_core_rule(prog, chk)
     # R3.8: the one thing decided about the hand-written assembly backends: `rep stos` / `rep movs` sequences cover exactly the
     # length register they are given (E17) - the keystream form of the xmm6 Salsa20 code zeroes the output and XORs into it
     if prog.config == "native":
@@ -526,3 +529,26 @@ def sibling_wrapper_rule(prog, chk):
                                                                             " -> ".join(c[0] for c in d[0])[:300]),
                        key="R3.9 %s %s" % (name, u.split("/")[-1]))
     chk.floor("R3.9", "same-named wrapper functions compared across stream backends", n, 10 if prog.config == "native" else 0)
+
+
+def single_core_rule(prog, chk):
+    """R3.10: a stream function calls one core permutation only"""
+    cg = prog.callgraph()
+    n = 0
+    for f in sorted(prog.functions(), key=lambda f: (f.unit, f.name)):
+        if not f.unit.startswith("crypto_stream/"):
+            continue
+        cores = {}
+        for iid, res in cg.sites[f.key]:
+            for r in res:
+                nm = r[1].sname if r[0] == "fn" else (r[1] if r[0] == "ext" else "")
+                if nm.startswith("crypto_core_"):
+                    cores.setdefault(nm, iid)
+        if not cores:
+            continue
+        n += 1
+        ok = len(cores) == 1
+        chk.ob("R3.10", f, "all core calls of %s name the same permutation" % f.sname, ok,
+               loc=f.loc(sorted(cores.values())[-1]), detail="" if ok else "calls %s" % ", ".join(
+                   "%s at %s" % (k, f.loc(v)) for k, v in sorted(cores.items())), key="R3.10 %s" % f.sname)
+    chk.floor("R3.10", "stream functions calling a core permutation", n, 6)
